@@ -64,6 +64,13 @@ func (c *QUICClient) ExchangeRaw(raw []byte, fin bool, wait time.Duration) (res 
 	ctx, cancel := context.WithTimeout(context.Background(), wait)
 	defer cancel()
 
+	start := time.Now()
+	defer func() {
+		if res.SendElapsed == 0 {
+			res.SendElapsed = time.Since(start)
+		}
+	}()
+
 	stream, err := c.conn.OpenStreamSync(ctx)
 	if err != nil {
 		return quicErrResult(err, nil)
@@ -90,16 +97,21 @@ func (c *QUICClient) ExchangeRaw(raw []byte, fin bool, wait time.Duration) (res 
 		}
 	}
 
+	sent := time.Since(start)
+
 	data, err := io.ReadAll(stream)
 	if !fin {
 		stream.CancelWrite(0)
 	}
 
 	if err != nil {
-		return quicErrResult(err, data)
+		res = quicErrResult(err, data)
+	} else {
+		res = streamDataResult(data)
 	}
+	res.SendElapsed = sent
 
-	return streamDataResult(data)
+	return res
 }
 
 func streamDataResult(data []byte) (res Result) {
